@@ -10,7 +10,7 @@ from __future__ import annotations
 from typing import Protocol
 
 from engine import coop
-from engine.api import SEED, cond, pick, task
+from engine.api import SEED, HarnessModelError, cond, harness_side, pick, task
 
 from vgi_rpc.http.server import _middleware as mw_mod
 from vgi_rpc.rpc import _server as srv
@@ -63,10 +63,12 @@ _SERVERS = [srv.RpcServer(_P, _Impl(0)), srv.RpcServer(_P, _Impl(0))]
 def _make_server(mode: int, lock, which: int = 0):  # type: ignore[no-untyped-def]
     impl = _Impl(mode)
     server = _SERVERS[which]
-    server._impl = impl
-    server._transport_kind = None
-    server._transport_capabilities = frozenset()
-    server._transport_lock = lock
+    for name, value in (("_impl", impl), ("_transport_kind", None), ("_transport_capabilities", frozenset()), ("_transport_lock", lock)):
+        # resetting the binding state of a prebuilt server reaches into private attributes: if one is
+        # gone the scenario cannot be set up -- a harness-model problem, never a finding
+        if not hasattr(server, name):
+            raise HarnessModelError(f"RpcServer.{name} is gone: cannot reset the serve-start binding state")
+        setattr(server, name, value)
     return server, impl
 
 
@@ -96,28 +98,50 @@ def _scenario(n: int, mode: int, first: int, pre):  # type: ignore[no-untyped-de
         s.close()
 
 
-def _verdict(s, server, impl, log, n: int, mode: int) -> bool:  # type: ignore[no-untyped-def]
+def _why(s, server, impl, log, n: int, mode: int) -> str:  # type: ignore[no-untyped-def]
+    """First rule of the property the run breaks ('' if none)."""
     if s.deadlocked:
-        return False
+        return "deadlock"
     for t in s.threads:
-        if t.exc is not None or not t.done:
-            return False
+        if t.exc is not None:
+            why = harness_side(t.exc)
+            if why:
+                raise HarnessModelError("scenario thread: " + why)
+            return "exception:" + type(t.exc).__name__
+        if not t.done:
+            return "request-did-not-finish"
     if len(log) != n:
-        return False
+        return "request-did-not-finish"
     # a dispatched request always follows a successful hook return
     for (dispatched, _i, ok_at) in log:
         if dispatched == 1 and ok_at < 1:
-            return False
+            return "dispatched-before-hook-succeeded"
     if impl.ok_returns > 1:
-        return False  # "exactly once" per binding
+        return "hook-ran-more-than-once-for-one-binding"
     failed = sum(1 for e in log if e[0] == 0)
+    bound = server.transport_kind is not None
     if mode == 0:
-        return impl.calls == 1 and impl.ok_returns == 1 and failed == 0 and server.transport_kind is not None
+        ok = impl.calls == 1 and impl.ok_returns == 1 and failed == 0 and bound
+        return "" if ok else "hook-not-run-exactly-once"
     if mode == 1:
         # exactly one request saw the failing hook; the hook ran again and the binding was recorded
-        return impl.calls == 2 and impl.ok_returns == 1 and failed == 1 and server.transport_kind is not None
+        ok = impl.calls == 2 and impl.ok_returns == 1 and failed == 1 and bound
+        return "" if ok else "failed-hook-not-retried-by-next-request"
     # raises always: nothing dispatched, binding never recorded, every request re-ran the hook
-    return impl.calls == n and failed == n and server.transport_kind is None
+    ok = impl.calls == n and failed == n and not bound
+    return "" if ok else "failing-hook-recorded-a-binding-or-was-skipped"
+
+
+def _verdict(s, server, impl, log, n: int, mode: int) -> bool:  # type: ignore[no-untyped-def]
+    return not _why(s, server, impl, log, n, mode)
+
+
+def _sig(n: int, pre_of):  # type: ignore[no-untyped-def]
+    def sig(a: dict, conc) -> str:  # type: ignore[no-untyped-def]
+        s_, server, impl, log = _scenario(n, a["mode"], a["first"], pre_of(a))
+        return "C42:" + (_why(s_, server, impl, log, n, int(a["mode"])) or "none")
+
+    return sig
 
 
 def _replay(n: int, mode: int, first: int, pre) -> str | None:  # type: ignore[no-untyped-def]
@@ -142,8 +166,10 @@ def _replay(n: int, mode: int, first: int, pre) -> str | None:  # type: ignore[n
         return run
 
     res = coop.replay_real(UNIT, [body(i) for i in range(n)], s.trace, s.seg_ends)
-    if res["diverged"] or not res["completed"]:
+    if res["diverged"] or not res["completed"] or res.get("harness_side"):
         return None
+    if any(res["exceptions"]):
+        return f"real threads ({res['segments']} segments): a first request raised something other than the hook's own error: {[e for e in res['exceptions'] if e]}"
 
     class _S:
         deadlocked = False
@@ -155,7 +181,7 @@ def _replay(n: int, mode: int, first: int, pre) -> str | None:  # type: ignore[n
 
 
 @cond(q=90, t=300, engine="coop", encoded=ENCODED, bound="2 requests, symbolic start thread + 1 preemption (covers A|B|A)",
-      replay=lambda a: _replay(2, a["mode"], a["first"], [(a["p1"], 1 - a["first"])]))
+      replay=lambda a: _replay(2, a["mode"], a["first"], [(a["p1"], 1 - a["first"])]), signature=_sig(2, lambda a: [(a["p1"], 1 - a["first"])]))
 def two_first_requests_k1(mode: int, first: int, p1: int) -> bool:
     """
     pre: 0 <= mode <= 2 and 0 <= first <= 1 and 0 <= p1 <= 50
@@ -166,7 +192,7 @@ def two_first_requests_k1(mode: int, first: int, p1: int) -> bool:
 
 
 @cond(q=90, t=900, tiers=("thorough",), engine="coop", encoded=ENCODED, bound="2 requests, 2 preemptions",
-      replay=lambda a: _replay(2, a["mode"], a["first"], [(a["p1"], 1 - a["first"]), (a["p2"], a["first"])]))
+      replay=lambda a: _replay(2, a["mode"], a["first"], [(a["p1"], 1 - a["first"]), (a["p2"], a["first"])]), signature=_sig(2, lambda a: [(a["p1"], 1 - a["first"]), (a["p2"], a["first"])]))
 def two_first_requests(mode: int, first: int, p1: int, p2: int) -> bool:
     """
     pre: 0 <= mode <= 2 and 0 <= first <= 1 and 0 <= p1 < p2 <= 50
@@ -177,7 +203,7 @@ def two_first_requests(mode: int, first: int, p1: int, p2: int) -> bool:
 
 
 @cond(q=60, t=900, tiers=("thorough",), engine="coop", encoded=ENCODED, bound="3 requests, 3 preemptions",
-      replay=lambda a: _replay(3, a["mode"], a["first"], [(a["p1"], a["t1"]), (a["p2"], a["t2"]), (a["p3"], a["t3"])]))
+      replay=lambda a: _replay(3, a["mode"], a["first"], [(a["p1"], a["t1"]), (a["p2"], a["t2"]), (a["p3"], a["t3"])]), signature=_sig(3, lambda a: [(a["p1"], a["t1"]), (a["p2"], a["t2"]), (a["p3"], a["t3"])]))
 def three_first_requests(mode: int, first: int, p1: int, t1: int, p2: int, t2: int, p3: int, t3: int) -> bool:
     """
     pre: 0 <= mode <= 2 and 0 <= first <= 2 and 0 <= t1 <= 2 and 0 <= t2 <= 2 and 0 <= t3 <= 2 and 0 <= p1 < p2 < p3 <= 60
@@ -264,7 +290,10 @@ def model_matches_real_threads(budget: float, replay=None) -> dict:
             return run
 
         res = coop.replay_real(UNIT, [body(0), body(1)], s.trace, s.seg_ends)
-        ok = not res["diverged"] and res["completed"] and sorted(rlog) == sorted(log) and rimpl.calls == impl.calls and rimpl.ok_returns == impl.ok_returns
+        forced = not res["diverged"] and res["completed"]  # was the recorded schedule really imposed?
+        ok = forced and sorted(rlog) == sorted(log) and rimpl.calls == impl.calls and rimpl.ok_returns == impl.ok_returns
+        if not forced and attempts.get(repr((mode, first, p1, p2)), 0) >= 2:
+            continue  # timing: the schedule could not be imposed on the threads; says nothing either way
         if ok:
             agree += 1
             coop.STATS["real_replays_agree"] += 1
